@@ -398,7 +398,9 @@ function!(BitNot(b:Integer)=>Integer, {
 
 function!(Negative(b:Integer)=>Integer, {
     let b:i64 = b.try_into()?;
-    Ok((-b).into())
+    b.checked_neg()
+        .map(Into::into)
+        .ok_or_else(|| err_msg(format!("integer overflow: -({})", b)))
 });
 
 macro_rules! int_op{
@@ -411,23 +413,53 @@ macro_rules! int_op{
     }
 }
 
-int_op!(Plus,+);
-int_op!(Minus,-);
-int_op!(Multiply,*);
-int_op!(Divide,/);
-int_op!(Mod,%);
+// arithmetic that can overflow or trap: report an error instead of panicking
+macro_rules! checked_int_op{
+    ($name:ident, $op:expr, $checked:expr) =>{
+        function!($name(a: Integer, b: Integer)=>Integer, {
+            let a:i64 = a.try_into()?;
+            let b:i64 = b.try_into()?;
+            let checked: fn(i64, i64) -> Option<i64> = $checked;
+            checked(a, b)
+                .map(Into::into)
+                .ok_or_else(|| err_msg(format!("integer overflow: {} {} {}", a, $op, b)))
+        });
+    }
+}
+
+macro_rules! div_int_op{
+    ($name:ident, $op:expr, $checked:expr) =>{
+        function!($name(a: Integer, b: Integer)=>Integer, {
+            let a:i64 = a.try_into()?;
+            let b:i64 = b.try_into()?;
+            if b == 0 {
+                bail!("division by zero: {} {} {}", a, $op, b)
+            }
+            let checked: fn(i64, i64) -> Option<i64> = $checked;
+            checked(a, b)
+                .map(Into::into)
+                .ok_or_else(|| err_msg(format!("integer overflow: {} {} {}", a, $op, b)))
+        });
+    }
+}
+
+fn shift_count(b: i64) -> Option<u32> {
+    std::convert::TryFrom::try_from(b).ok()
+}
+
+checked_int_op!(Plus, "+", i64::checked_add);
+checked_int_op!(Minus, "-", i64::checked_sub);
+checked_int_op!(Multiply, "*", i64::checked_mul);
+div_int_op!(Divide, "/", i64::checked_div);
+div_int_op!(Mod, "%", i64::checked_rem);
 int_op!(BitAnd,&);
 int_op!(BitOr,|);
 int_op!(BitXor,^);
-int_op!(ShiftLeft,<<);
-int_op!(ShiftRight,>>);
-function!(ShiftRightUnsigned(a: Integer, b: Integer)=>Integer, {
-    let a:i64 = a.try_into()?;
-    let b:i64 = b.try_into()?;
-    let a = a as u64;
-    let a = (a >> b) as i64;
-    Ok(a.into())
-});
+checked_int_op!(ShiftLeft, "<<", |a, b| shift_count(b).and_then(|b| a.checked_shl(b)));
+checked_int_op!(ShiftRight, ">>", |a, b| shift_count(b).and_then(|b| a.checked_shr(b)));
+checked_int_op!(ShiftRightUnsigned, ">>>", |a, b| shift_count(b)
+    .and_then(|b| (a as u64).checked_shr(b))
+    .map(|a| a as i64));
 
 function!(And(a: Boolean, b: Boolean)=>Boolean, ctx=ctx, arg_opts=raw,{
     let a:bool = a.real_value_of(ctx.clone())?.try_into()?;
